@@ -33,6 +33,39 @@ class ParameterQueryException(Exception):
             "ParameterQueryException: input is not a list of strings"
         self.params = params
 
+def overlap_type(T1, T2):
+    """Whether the types T1 and T2 have a common instance (the type
+    variables of the two types are considered distinct)."""
+    def rename(T, prefix):
+        if T.is_tvar():
+            return TVar(prefix + T.name)
+        elif T.is_tconst():
+            return type(T)(T.name, *(rename(arg, prefix) for arg in T.args)) if T.args else T
+        else:
+            return T
+    subst = dict()
+    def walk(T):
+        while T in subst:
+            T = subst[T]
+        return T
+    def occurs(v, T):
+        T = walk(T)
+        return T == v or (T.is_tconst() and any(occurs(v, arg) for arg in T.args))
+    def unify(T1, T2):
+        T1, T2 = walk(T1), walk(T2)
+        if T1 == T2:
+            return True
+        if not T1.is_tconst():
+            if occurs(T1, T2):
+                return False
+            subst[T1] = T2
+            return True
+        if not T2.is_tconst():
+            return unify(T2, T1)
+        return T1.name == T2.name and len(T1.args) == len(T2.args) and \
+            all(unify(a1, a2) for a1, a2 in zip(T1.args, T2.args))
+    return unify(rename(T1, "_l_"), rename(T2, "_r_"))
+
 class Theory:
     """Represents the current state of the theory.
 
